@@ -129,7 +129,7 @@ def tri(x, u):
 
 
 def run(ctx):
-    ctx.level = 'proof'
+    ctx.level = 'other'
     ctx.explanation = ('Clamp / range test / partial_min / partial_max touch their scalars only through comparisons: the MIR path set of each of the 22 implementing types is evaluated on all 13 weak orderings of (value, lower, upper) '
                        'against the definition (value if inside, nearer bound otherwise, panic iff lower > upper), including idempotence and agreement with the range test; trait defaults are evaluated on every order type of the value '
                        'relative to their constants. Wrap/pingpong/delta-angle: panic outcomes are decided on every order type of the bounds relative to zero and each other; float formulas are compared as canonical expressions with '
